@@ -219,6 +219,7 @@ class SBC:
                 largest_region,
                 system=system,
                 distances=distances,
+                radii=target._radii,
                 bond_threshold=bond_threshold,
             )
 
@@ -307,6 +308,7 @@ class SBC:
                     if cluster != max_cluster:
                         ind_set.remove(i)
                     cluster.indices = list(ind_set)
+                    cluster._distance_matrix_radii_mic = None
         return clusters
 
     def _clean_clusters(self, clusters, bond_threshold):
@@ -336,5 +338,7 @@ class SBC:
                 continue
             largest_indices = max(dbscan_clusters, key=lambda x: len(x))
             cluster.indices = np.array(cluster.indices)[largest_indices].tolist()
+            # The cached distance sub-matrix was built for the old indices
+            cluster._distance_matrix_radii_mic = None
             clusters_cleaned.append(cluster)
         return clusters_cleaned
